@@ -260,7 +260,7 @@ def generate_profiles(ctx):
         return n, zm, um, vm, L, pr
 
     for closure, given, grid in [(c, g, "default") for c in ("MOST", "MOSTM", "CONSTANT") for g in ("ustar", "z0")] + \
-            [("MOST", "ustar", "explicit"), ("MOST", "z0", "explicit")]:
+            [("MOST", "ustar", "explicit"), ("MOST", "z0", "explicit"), ("MOST", "z0", "stretch-only"), ("MOST", "ustar", "height-only")]:
         if True:
             def thunk(run, closure=closure, given=given, grid=grid):
                 run.scope = "pbl_model.vertical_profiles[%s|%s given|grid=%s]" % (closure, given, grid)
@@ -270,6 +270,12 @@ def generate_profiles(ctx):
                 if grid == "explicit":
                     gk = {"stretch": sym.fresh_real("stretch"), "domain_height": sym.fresh_real("domain_height")}
                     run.assume((gk["stretch"] > 0) & (gk["domain_height"] >= zm))
+                elif grid == "stretch-only":       # the other one keeps its documented default 2 zm (they are independent)
+                    gk = {"stretch": sym.fresh_real("stretch")}
+                    run.assume(gk["stretch"] > 0)
+                elif grid == "height-only":
+                    gk = {"domain_height": sym.fresh_real("domain_height")}
+                    run.assume(gk["domain_height"] >= zm)
                 if given == "ustar":
                     ust = sym.fresh_real("ustar")
                     run.assume(ust > 0)
